@@ -87,11 +87,31 @@ func VerifProcessorTwoClients() {
 	if second.Before(first) {
 		first, second = second, first
 	}
+	ran := func(id int) bool {
+		for _, e := range log.execs {
+			if e.id == id {
+				return true
+			}
+		}
+		return false
+	}
+	// on time: once the clock has reached an item's due time and everybody is parked again, a live item has run
+	onTime := func(now time.Time) {
+		if !dequeue1 && !it1.due.After(now) {
+			zzverif.Assert(ran(1), "live_item_runs_when_due")
+		}
+		if !it2.due.After(now) {
+			zzverif.Assert(ran(2), "live_item_runs_when_due")
+		}
+	}
 	zzverif.WaitQuiescent()
+	onTime(start)
 	clk.AdvanceTo(first)
 	zzverif.WaitQuiescent()
+	onTime(first)
 	clk.AdvanceTo(second)
 	zzverif.WaitQuiescent()
+	onTime(second)
 	clk.AdvanceTo(second.Add(time.Millisecond))
 	zzverif.WaitQuiescent()
 
